@@ -3169,3 +3169,54 @@ def m_slice_index_range(engine, ctx, args, callee, frame):
     s = ctx.concretize(start, 64, "slice start")
     l = ctx.concretize(length, 64, "slice length")
     return Ref(cell, (Int(s, 64), Int(l, 64)))
+
+
+# ------------------------------------------------------------------ Arc / tokio RwLock (single task: no contention modelled)
+
+class LockV:
+    def __init__(self, inner):
+        self.inner = Cell(inner)
+
+    def clone(self):
+        return self
+
+
+@model(r"^tokio::sync::RwLock::<.*>::(read|write)$|^tokio::sync::Mutex::<.*>::lock$")
+def m_rwlock_read(engine, ctx, args, callee, frame):
+    l = deref(args[0])
+    if not isinstance(l, LockV):
+        raise Untranslatable("lock operation on %s" % type(l).__name__)
+    return future(callee, lambda: Agg("struct", "Guard", [Cell(Ref(l.inner))]))
+
+
+@model(r"^<tokio::sync::(RwLockReadGuard|RwLockWriteGuard|MutexGuard)<.*> as (std::ops::)?Deref(Mut)?>::deref(_mut)?$")
+def m_guard_deref(engine, ctx, args, callee, frame):
+    g = deref(args[0])
+    return g.fields[0].v
+
+
+@model(r"^<(std::sync::)?Arc<.*> as (std::ops::)?Deref>::deref$")
+def m_arc_deref(engine, ctx, args, callee, frame):
+    a = deref(args[0])          # the Arc value itself is a pointer to its content
+    if isinstance(a, LockV) or not isinstance(args[0], Ref):
+        return Ref(Cell(a))
+    inner = args[0].cell.v
+    if isinstance(inner, Ref):
+        return inner
+    return args[0]
+
+
+@model(r"^(std::sync::)?Arc::<.*>::new$")
+def m_arc_new(engine, ctx, args, callee, frame):
+    return Ref(Cell(args[0]))
+
+
+@model(r"^core::str::<impl str>::contains::<char>$")
+def m_str_contains_char(engine, ctx, args, callee, frame):
+    b = as_bytes(engine, args[0])
+    ch = args[1]
+    n = ctx.concretize(b.len, 64, "contains length")
+    c = False
+    for i in range(n):
+        c = b_or(c, int_binop("Eq", int_cast(b.byte(i), 32, False), ch))
+    return c
